@@ -24,6 +24,13 @@ class _DefaultValue(int):
     pass
 
 
+def _nested_list_to_mx(value):
+    """A (nested) list whose elements may be MX -> MX with the layout ca.DM gives a numeric list."""
+    if any(isinstance(row, list) for row in value):
+        return ca.vertcat(*[ca.horzcat(*[ca.MX(e) for e in row]) for row in value])
+    return ca.vertcat(*[ca.MX(e) for e in value])
+
+
 class Variable:
     def __init__(self, symbol, python_type=float, aliases=None):
         if aliases is None:
@@ -1417,7 +1424,9 @@ class Model:
                     try:
                         value = ca.DM(value)
                     except Exception:
-                        pass
+                        if isinstance(value, list):
+                            # Array attribute with symbolic elements, e.g. start = {p, 2 * p}
+                            value = _nested_list_to_mx(value)
                     value = ca.MX(value)
                     if value.is_zero():
                         value = zero
